@@ -7,11 +7,25 @@ Local Open Scope Z_scope.
 
 (* a history step: a stack operation, or a bulk insertion by an exact-size iterator of a CLAIMED length far too
    large to write down (the harness only generates it where it cannot fit) *)
-Inductive cop := Op (o : op Z) | PushManyClaimed (n : N).
+Inductive cop := Op (o : op Z) | PushManyClaimed (n : N)
+  (* try_extend from an iterator that is NOT fused: it yields l1, then None, then goes on with l2 *)
+  | TryExtendResuming (l1 l2 : list Z).
 Definition cstep (s : sstack Z) (c : cop) : sstack Z * res Z :=
   match c with
   | Op o => sstep s o
   | PushManyClaimed n => if (smax s <? n + ssize s)%N then (s, ROverflow) else (s, RNum 0)   (* else: never generated *)
+  | TryExtendResuming l1 l2 =>
+    (* the code takes at most as many items as there is room and then asks once whether more would come: when the first
+       None came early and the iterator resumes, it sees more and answers Overflow - with the stack as it was *)
+    if (N.of_nat (length l1) + ssize s <? smax s)%N && negb (match l2 with [] => true | _ => false end)
+    then (s, ROverflow) else sstep s (OTryExtend l1)
+  end.
+(* ... an implementation that stops at the first None and extends by l1 is as good: all of what the iterator offered
+   before its end, or nothing *)
+Definition cstep_alt (s : sstack Z) (c : cop) : option (sstack Z * res Z) :=
+  match c with
+  | TryExtendResuming l1 _ => Some (sstep s (OTryExtend l1))
+  | _ => None
   end.
 (* it is exactly what push_many does with any list of that length *)
 Lemma claimed_is_push_many s l : (smax s <? N.of_nat (length l) + ssize s)%N = true ->
@@ -35,6 +49,8 @@ Definition dec_op0 (t : tree) : option (op Z) :=
 Definition dec_op (t : tree) : option cop :=
   match t with
   | L [A 16; n] => olet n := tN n in Some (PushManyClaimed n)
+  | L [A 17; l] => olet l := tlist tZ l in Some (Op (OTryExtend l))   (* try_extend_from_slice *)
+  | L [A 18; l1; l2] => olet l1 := tlist tZ l1 in olet l2 := tlist tZ l2 in Some (TryExtendResuming l1 l2)
   | _ => olet o := dec_op0 t in Some (Op o)
   end.
 
@@ -89,7 +105,12 @@ Fixpoint agree (s : sstack Z) (h : list cop) (os : list obs) : bool :=
   match h, os with
   | [], [] => true
   | o :: h', ob :: os' =>
-    let '(s1, r) := cstep s o in obs_matches s1 r ob && agree s1 h' os'
+    let '(s1, r) := cstep s o in
+    if obs_matches s1 r ob then agree s1 h' os'
+    else match cstep_alt s o with
+         | Some (s2, r2) => obs_matches s2 r2 ob && agree s2 h' os'
+         | None => false
+         end
   | _, _ => false
   end.
 
@@ -100,7 +121,8 @@ Fixpoint holds (pre : sstack Z) (h : list cop) (os : list obs) : bool :=
   | [], [] => true
   | o :: h', ob :: os' =>
     let '(s1, r) := cstep pre o in
-    obs_matches s1 r ob && holds (SS (o_max ob) (o_elems ob)) h' os'
+    (obs_matches s1 r ob || match cstep_alt pre o with Some (s2, r2) => obs_matches s2 r2 ob | None => false end)
+    && holds (SS (o_max ob) (o_elems ob)) h' os'
   | _, _ => false
   end.
 
